@@ -41,6 +41,8 @@ var CorpusHand = []RouteSet{
 	rs("readme-prio", "GET", "/*{filepath}", "/users/{id}", "/users/{id}/emails", "/users/{id}/{actions}"),
 	rs("host-tsr", "GET", "a.b/x/", "/x", "a.b/y", "/y/", "/z"),
 	fanout(),
+	rs("siblings-3", "GET", "/s/b", "/s/d", "/s/f", "/s"),
+	rs("leaf-one-child-wild", "GET", "/a", "/a/b", "/a/{x}", "/c", "/c/d", "/c/*{w}", "/e", "/e/f{y}/g"),
 }
 
 // fanout has 60 sibling first bytes under "/" (the 50-child linear/binary search switch).
